@@ -285,6 +285,8 @@ class LRAChecker:
                 self.s.add(z3.Or([self.zlit(s) for s in h["l"]]) if h["l"] else z3.BoolVal(False))
             elif k in ("learnt", "tconf"):
                 self.stats["lemmas" if k == "learnt" else "tconf"] += 1
+                if k == "tconf" and h.get("nf"):
+                    self.fail("C08,C09", "explanation-with-non-false-literal", "the conflict clause %s contains literals that are not false when it is reported: %s; meanings: %s" % (h["l"], h["nf"], self.meanings(h["l"])))
                 # explanations are judged modulo everything that holds at root level (bounds copied into a new slack lose their
                 # reason literal and are explained by TRUE): clauses added so far + meaning of the assertion variables
                 if True:
@@ -565,7 +567,7 @@ def work(exes, start, n, pop_heavy, owner, scale=1):
         part.count("bound recomputations compared", ck.stats["bounds_cmp"])
         done = set()
         for own, key, d in ck.fails:
-            if own != owner:
+            if owner not in own.split(","):
                 part.count("failures owned by " + own)
                 continue
             if key in done:
